@@ -88,6 +88,14 @@ module Nat =
     | S n' -> (match m with
                | O -> O
                | S m' -> S (min n' m'))
+
+  (** val even : nat -> bool **)
+
+  let rec even = function
+  | O -> true
+  | S n1 -> (match n1 with
+             | O -> false
+             | S n' -> even n')
  end
 
 (** val tl : 'a1 list -> 'a1 list **)
@@ -112,11 +120,24 @@ let rec rev = function
 | [] -> []
 | x :: l' -> app (rev l') (x :: [])
 
+(** val concat : 'a1 list list -> 'a1 list **)
+
+let rec concat = function
+| [] -> []
+| x :: l0 -> app x (concat l0)
+
 (** val flat_map : ('a1 -> 'a2 list) -> 'a1 list -> 'a2 list **)
 
 let rec flat_map f = function
 | [] -> []
 | x :: t -> app (f x) (flat_map f t)
+
+(** val fold_left : ('a1 -> 'a2 -> 'a1) -> 'a2 list -> 'a1 -> 'a1 **)
+
+let rec fold_left f l a0 =
+  match l with
+  | [] -> a0
+  | b :: t -> fold_left f t (f a0 b)
 
 (** val skipn : nat -> 'a1 list -> 'a1 list **)
 
@@ -424,6 +445,10 @@ module N =
     snd (div_eucl a b)
  end
 
+type 'a res =
+| Ok of 'a
+| Panic
+
 (** val omap : ('a1 -> 'a2) -> 'a1 option -> 'a2 option **)
 
 let omap f = function
@@ -536,6 +561,315 @@ type uData = { u_is_whitespace : (n -> bool);
                u_to_upper : (n -> n list); u_to_lower : (n -> n list);
                u_width : (n -> nat); u_gcat : (n -> gcat);
                u_incb_extend : (n -> bool); u_incb_linker : (n -> bool) }
+
+(** val gcat_eqb : gcat -> gcat -> bool **)
+
+let gcat_eqb a b =
+  match a with
+  | GC_Any -> (match b with
+               | GC_Any -> true
+               | _ -> false)
+  | GC_CR -> (match b with
+              | GC_CR -> true
+              | _ -> false)
+  | GC_Control -> (match b with
+                   | GC_Control -> true
+                   | _ -> false)
+  | GC_Extend -> (match b with
+                  | GC_Extend -> true
+                  | _ -> false)
+  | GC_ExtPict -> (match b with
+                   | GC_ExtPict -> true
+                   | _ -> false)
+  | GC_InCBConsonant -> (match b with
+                         | GC_InCBConsonant -> true
+                         | _ -> false)
+  | GC_L -> (match b with
+             | GC_L -> true
+             | _ -> false)
+  | GC_LF -> (match b with
+              | GC_LF -> true
+              | _ -> false)
+  | GC_LV -> (match b with
+              | GC_LV -> true
+              | _ -> false)
+  | GC_LVT -> (match b with
+               | GC_LVT -> true
+               | _ -> false)
+  | GC_Prepend -> (match b with
+                   | GC_Prepend -> true
+                   | _ -> false)
+  | GC_RI -> (match b with
+              | GC_RI -> true
+              | _ -> false)
+  | GC_SpacingMark -> (match b with
+                       | GC_SpacingMark -> true
+                       | _ -> false)
+  | GC_T -> (match b with
+             | GC_T -> true
+             | _ -> false)
+  | GC_V -> (match b with
+             | GC_V -> true
+             | _ -> false)
+  | GC_ZWJ -> (match b with
+               | GC_ZWJ -> true
+               | _ -> false)
+
+(** val gcat_of : uData -> n -> gcat **)
+
+let gcat_of u c =
+  if N.leb c (Npos (XO (XI (XI (XI (XI (XI XH)))))))
+  then if N.leb (Npos (XO (XO (XO (XO (XO XH)))))) c
+       then GC_Any
+       else if N.eqb c (Npos (XO (XI (XO XH))))
+            then GC_LF
+            else if N.eqb c (Npos (XI (XO (XI XH))))
+                 then GC_CR
+                 else GC_Control
+  else u.u_gcat c
+
+type pair_result =
+| PNotBreak
+| PBreak
+| PExtended
+| PInCb
+| PRegional
+| PEmoji
+
+(** val is_ctl : gcat -> bool **)
+
+let is_ctl = function
+| GC_CR -> true
+| GC_Control -> true
+| GC_LF -> true
+| _ -> false
+
+(** val check_pair : gcat -> gcat -> pair_result **)
+
+let check_pair b a =
+  match b with
+  | GC_CR ->
+    (match a with
+     | GC_LF -> PNotBreak
+     | _ ->
+       if is_ctl b
+       then PBreak
+       else if is_ctl a
+            then PBreak
+            else (match b with
+                  | GC_L ->
+                    (match a with
+                     | GC_Extend -> PNotBreak
+                     | GC_InCBConsonant -> PInCb
+                     | GC_L -> PNotBreak
+                     | GC_LV -> PNotBreak
+                     | GC_LVT -> PNotBreak
+                     | GC_SpacingMark -> PExtended
+                     | GC_V -> PNotBreak
+                     | GC_ZWJ -> PNotBreak
+                     | _ -> PBreak)
+                  | GC_LV ->
+                    (match a with
+                     | GC_Extend -> PNotBreak
+                     | GC_InCBConsonant -> PInCb
+                     | GC_SpacingMark -> PExtended
+                     | GC_T -> PNotBreak
+                     | GC_V -> PNotBreak
+                     | GC_ZWJ -> PNotBreak
+                     | _ -> PBreak)
+                  | GC_LVT ->
+                    (match a with
+                     | GC_Extend -> PNotBreak
+                     | GC_InCBConsonant -> PInCb
+                     | GC_SpacingMark -> PExtended
+                     | GC_T -> PNotBreak
+                     | GC_ZWJ -> PNotBreak
+                     | _ -> PBreak)
+                  | GC_Prepend ->
+                    (match a with
+                     | GC_Extend -> PNotBreak
+                     | GC_ZWJ -> PNotBreak
+                     | _ -> PExtended)
+                  | GC_RI ->
+                    (match a with
+                     | GC_Extend -> PNotBreak
+                     | GC_InCBConsonant -> PInCb
+                     | GC_RI -> PRegional
+                     | GC_SpacingMark -> PExtended
+                     | GC_ZWJ -> PNotBreak
+                     | _ -> PBreak)
+                  | GC_T ->
+                    (match a with
+                     | GC_Extend -> PNotBreak
+                     | GC_InCBConsonant -> PInCb
+                     | GC_SpacingMark -> PExtended
+                     | GC_T -> PNotBreak
+                     | GC_ZWJ -> PNotBreak
+                     | _ -> PBreak)
+                  | GC_V ->
+                    (match a with
+                     | GC_Extend -> PNotBreak
+                     | GC_InCBConsonant -> PInCb
+                     | GC_SpacingMark -> PExtended
+                     | GC_T -> PNotBreak
+                     | GC_V -> PNotBreak
+                     | GC_ZWJ -> PNotBreak
+                     | _ -> PBreak)
+                  | GC_ZWJ ->
+                    (match a with
+                     | GC_Extend -> PNotBreak
+                     | GC_ExtPict -> PEmoji
+                     | GC_InCBConsonant -> PInCb
+                     | GC_SpacingMark -> PExtended
+                     | GC_ZWJ -> PNotBreak
+                     | _ -> PBreak)
+                  | _ ->
+                    (match a with
+                     | GC_Extend -> PNotBreak
+                     | GC_InCBConsonant -> PInCb
+                     | GC_SpacingMark -> PExtended
+                     | GC_ZWJ -> PNotBreak
+                     | _ -> PBreak)))
+  | _ ->
+    if is_ctl b
+    then PBreak
+    else if is_ctl a
+         then PBreak
+         else (match b with
+               | GC_L ->
+                 (match a with
+                  | GC_Extend -> PNotBreak
+                  | GC_InCBConsonant -> PInCb
+                  | GC_L -> PNotBreak
+                  | GC_LV -> PNotBreak
+                  | GC_LVT -> PNotBreak
+                  | GC_SpacingMark -> PExtended
+                  | GC_V -> PNotBreak
+                  | GC_ZWJ -> PNotBreak
+                  | _ -> PBreak)
+               | GC_LV ->
+                 (match a with
+                  | GC_Extend -> PNotBreak
+                  | GC_InCBConsonant -> PInCb
+                  | GC_SpacingMark -> PExtended
+                  | GC_T -> PNotBreak
+                  | GC_V -> PNotBreak
+                  | GC_ZWJ -> PNotBreak
+                  | _ -> PBreak)
+               | GC_LVT ->
+                 (match a with
+                  | GC_Extend -> PNotBreak
+                  | GC_InCBConsonant -> PInCb
+                  | GC_SpacingMark -> PExtended
+                  | GC_T -> PNotBreak
+                  | GC_ZWJ -> PNotBreak
+                  | _ -> PBreak)
+               | GC_Prepend ->
+                 (match a with
+                  | GC_Extend -> PNotBreak
+                  | GC_ZWJ -> PNotBreak
+                  | _ -> PExtended)
+               | GC_RI ->
+                 (match a with
+                  | GC_Extend -> PNotBreak
+                  | GC_InCBConsonant -> PInCb
+                  | GC_RI -> PRegional
+                  | GC_SpacingMark -> PExtended
+                  | GC_ZWJ -> PNotBreak
+                  | _ -> PBreak)
+               | GC_T ->
+                 (match a with
+                  | GC_Extend -> PNotBreak
+                  | GC_InCBConsonant -> PInCb
+                  | GC_SpacingMark -> PExtended
+                  | GC_T -> PNotBreak
+                  | GC_ZWJ -> PNotBreak
+                  | _ -> PBreak)
+               | GC_V ->
+                 (match a with
+                  | GC_Extend -> PNotBreak
+                  | GC_InCBConsonant -> PInCb
+                  | GC_SpacingMark -> PExtended
+                  | GC_T -> PNotBreak
+                  | GC_V -> PNotBreak
+                  | GC_ZWJ -> PNotBreak
+                  | _ -> PBreak)
+               | GC_ZWJ ->
+                 (match a with
+                  | GC_Extend -> PNotBreak
+                  | GC_ExtPict -> PEmoji
+                  | GC_InCBConsonant -> PInCb
+                  | GC_SpacingMark -> PExtended
+                  | GC_ZWJ -> PNotBreak
+                  | _ -> PBreak)
+               | _ ->
+                 (match a with
+                  | GC_Extend -> PNotBreak
+                  | GC_InCBConsonant -> PInCb
+                  | GC_SpacingMark -> PExtended
+                  | GC_ZWJ -> PNotBreak
+                  | _ -> PBreak))
+
+(** val incb_break : uData -> n list -> bool -> bool **)
+
+let rec incb_break u rb seen_linker =
+  match rb with
+  | [] -> true
+  | c :: t ->
+    if u.u_incb_linker c
+    then incb_break u t true
+    else if u.u_incb_extend c
+         then incb_break u t seen_linker
+         else negb
+                ((&&) seen_linker (gcat_eqb (gcat_of u c) GC_InCBConsonant))
+
+(** val ri_run : uData -> n list -> nat **)
+
+let rec ri_run u = function
+| [] -> O
+| c :: t -> if gcat_eqb (gcat_of u c) GC_RI then S (ri_run u t) else O
+
+(** val emoji_break : uData -> n list -> bool **)
+
+let rec emoji_break u = function
+| [] -> true
+| c :: t ->
+  (match gcat_of u c with
+   | GC_Extend -> emoji_break u t
+   | GC_ExtPict -> false
+   | _ -> true)
+
+(** val is_break : uData -> n list -> n -> bool **)
+
+let is_break u rb a =
+  match rb with
+  | [] -> true
+  | b :: rest ->
+    (match check_pair (gcat_of u b) (gcat_of u a) with
+     | PBreak -> true
+     | PInCb -> incb_break u rb false
+     | PRegional -> Nat.even (ri_run u rb)
+     | PEmoji -> emoji_break u rest
+     | _ -> false)
+
+(** val seg_go : uData -> n list -> n list -> str -> str list **)
+
+let rec seg_go u rb cur = function
+| [] -> (match cur with
+         | [] -> []
+         | _ :: _ -> (rev cur) :: [])
+| c :: t ->
+  (match cur with
+   | [] -> seg_go u (c :: rb) (c :: []) t
+   | _ :: _ ->
+     if is_break u rb c
+     then (rev cur) :: (seg_go u (c :: rb) (c :: []) t)
+     else seg_go u (c :: rb) (c :: cur) t)
+
+(** val useg : uData -> str -> str list **)
+
+let useg u s =
+  seg_go u [] [] s
 
 (** val encode_char : n -> n list **)
 
@@ -1269,3 +1603,166 @@ let rec w_run u w = function
 | [] -> []
 | o :: t ->
   let (w', out) = w_step u w o in (w_observe w' o out) :: (w_run u w' t)
+
+(** val str_truncate : str -> nat -> str res **)
+
+let str_truncate s n0 =
+  if Nat.ltb (blen s) n0
+  then Ok s
+  else (match bsplit s n0 with
+        | Some p -> let (l, _) = p in Ok l
+        | None -> Panic)
+
+(** val apply_bs_go : str list -> str -> nat list -> str res **)
+
+let rec apply_bs_go gs out sizes =
+  match gs with
+  | [] -> Ok out
+  | g :: t ->
+    if str_eqb g ((Npos (XO (XO (XO XH)))) :: [])
+    then (match sizes with
+          | [] -> apply_bs_go t out sizes
+          | n0 :: sizes' ->
+            if Nat.ltb (blen out) n0
+            then Panic
+            else (match str_truncate out (sub (blen out) n0) with
+                  | Ok out' -> apply_bs_go t out' sizes'
+                  | Panic -> Panic))
+    else apply_bs_go t (app out g) ((blen g) :: sizes)
+
+(** val apply_bs_impl : (str -> str list) -> str -> str res **)
+
+let apply_bs_impl seg s =
+  apply_bs_go (seg s) [] []
+
+(** val bs_stack : str list -> str list **)
+
+let bs_stack gs =
+  fold_left (fun st g ->
+    if str_eqb g ((Npos (XO (XO (XO XH)))) :: []) then tl st else g :: st) gs
+    []
+
+(** val apply_bs : (str -> str list) -> str -> str **)
+
+let apply_bs seg s =
+  concat (rev (bs_stack (seg s)))
+
+type vres =
+| VValid
+| VInvalidMsg
+| VInvalid
+| VIncomplete
+| VError
+
+type dres =
+| DLine of str
+| DEof
+| DErr
+| DPanic
+
+(** val dlines_aux : str -> str -> str list **)
+
+let rec dlines_aux inp cur =
+  match inp with
+  | [] -> (match cur with
+           | [] -> []
+           | _ :: _ -> (rev cur) :: [])
+  | c :: t ->
+    if N.eqb c (Npos (XO (XI (XO XH))))
+    then (rev (c :: cur)) :: (dlines_aux t [])
+    else dlines_aux t (c :: cur)
+
+(** val dlines : str -> str list **)
+
+let dlines inp =
+  dlines_aux inp []
+
+(** val ends_with : str -> n -> bool **)
+
+let ends_with s c =
+  match rev s with
+  | [] -> false
+  | x :: _ -> N.eqb x c
+
+(** val pop : str -> str **)
+
+let pop s =
+  rev (tl (rev s))
+
+(** val strip_terminator : str -> (str * bool) * bool **)
+
+let strip_terminator s =
+  if ends_with s (Npos (XO (XI (XO XH))))
+  then let s1 = pop s in
+       if ends_with s1 (Npos (XI (XO (XI XH))))
+       then (((pop s1), true), true)
+       else ((s1, true), false)
+  else ((s, false), false)
+
+(** val direct_go :
+    (str -> str list) -> (str -> vres) option -> str -> str list -> dres list **)
+
+let rec direct_go seg v acc = function
+| [] -> DEof :: []
+| l :: t ->
+  let (p, tr) = strip_terminator (app acc l) in
+  let (s, tn) = p in
+  (match apply_bs_impl seg s with
+   | Ok inp ->
+     (match v with
+      | Some vf ->
+        (match vf inp with
+         | VValid -> (DLine inp) :: (direct_go seg v [] t)
+         | VIncomplete ->
+           direct_go seg v
+             (app inp
+               (app (if tr then (Npos (XI (XO (XI XH)))) :: [] else [])
+                 (if tn then (Npos (XO (XI (XO XH)))) :: [] else []))) t
+         | VError -> DErr :: (direct_go seg v [] t)
+         | _ -> direct_go seg v inp t)
+      | None -> (DLine inp) :: (direct_go seg v [] t))
+   | Panic -> DPanic :: [])
+
+(** val direct_all :
+    (str -> str list) -> (str -> vres) option -> str -> dres list **)
+
+let direct_all seg v input =
+  direct_go seg v [] (dlines input)
+
+(** val brackets_go : str -> n list -> vres **)
+
+let rec brackets_go s stack =
+  match s with
+  | [] -> (match stack with
+           | [] -> VValid
+           | _ :: _ -> VIncomplete)
+  | c :: t ->
+    if (||)
+         ((||) (N.eqb c (Npos (XO (XO (XO (XI (XO XH)))))))
+           (N.eqb c (Npos (XI (XI (XO (XI (XI (XO XH)))))))))
+         (N.eqb c (Npos (XI (XI (XO (XI (XI (XI XH))))))))
+    then brackets_go t (c :: stack)
+    else if (||)
+              ((||) (N.eqb c (Npos (XI (XO (XO (XI (XO XH)))))))
+                (N.eqb c (Npos (XI (XO (XI (XI (XI (XO XH)))))))))
+              (N.eqb c (Npos (XI (XO (XI (XI (XI (XI XH))))))))
+         then (match stack with
+               | [] -> VInvalidMsg
+               | o :: st ->
+                 if (||)
+                      ((||)
+                        ((&&) (N.eqb o (Npos (XO (XO (XO (XI (XO XH)))))))
+                          (N.eqb c (Npos (XI (XO (XO (XI (XO XH))))))))
+                        ((&&)
+                          (N.eqb o (Npos (XI (XI (XO (XI (XI (XO XH))))))))
+                          (N.eqb c (Npos (XI (XO (XI (XI (XI (XO XH))))))))))
+                      ((&&) (N.eqb o (Npos (XI (XI (XO (XI (XI (XI XH))))))))
+                        (N.eqb c (Npos (XI (XO (XI (XI (XI (XI XH)))))))))
+                 then brackets_go t st
+                 else VInvalidMsg)
+         else brackets_go t stack
+
+(** val bracket_validator : str -> vres **)
+
+let bracket_validator s =
+  brackets_go s []
